@@ -200,6 +200,8 @@ pub struct SinkState {
     pub failed: bool,
     /// some call returned a hard error or `Ok(0)` (sticky or transient): bytes were rejected
     pub rejected: bool,
+    /// bytes held when the first call was rejected
+    pub len_at_reject: Option<usize>,
     pub data: Vec<u8>,
     /// raw calls seen: `w<len>` / `f`
     pub trace: Vec<String>,
@@ -236,6 +238,12 @@ impl FaultSink {
     pub fn rejected(&self) -> bool {
         self.0.lock().unwrap().rejected
     }
+    /// bytes the sink held when the writer's first failure happened: at the first rejected call,
+    /// else when the first error was returned to the caller (`at_error`), else now
+    pub fn accepted(&self, at_error: Option<usize>) -> usize {
+        let st = self.0.lock().unwrap();
+        st.len_at_reject.or(at_error).unwrap_or(st.data.len())
+    }
 }
 
 impl Write for FaultSink {
@@ -268,17 +276,26 @@ impl Write for FaultSink {
                 if n == 0 {
                     // a full sink stays full: `Ok(0)` is a hard fault (`WriteZero`)
                     st.failed = true;
-                    st.rejected = true;
+                    if !st.rejected {
+                    st.len_at_reject = Some(st.data.len());
+                }
+                st.rejected = true;
                 }
                 Ok(n)
             }
             Resp::Interrupted => Err(io::Error::new(io::ErrorKind::Interrupted, "injected: interrupted")),
             Resp::Fail => {
                 st.failed = true;
+                if !st.rejected {
+                    st.len_at_reject = Some(st.data.len());
+                }
                 st.rejected = true;
                 Err(io::Error::other("injected: write failed"))
             }
             Resp::FailOnce => {
+                if !st.rejected {
+                    st.len_at_reject = Some(st.data.len());
+                }
                 st.rejected = true;
                 Err(io::Error::other("injected: write failed (transient)"))
             }
@@ -298,10 +315,16 @@ impl Write for FaultSink {
             Resp::Interrupted => Err(io::Error::new(io::ErrorKind::Interrupted, "injected: interrupted")),
             Resp::Fail => {
                 st.failed = true;
+                if !st.rejected {
+                    st.len_at_reject = Some(st.data.len());
+                }
                 st.rejected = true;
                 Err(io::Error::other("injected: flush failed"))
             }
             Resp::FailOnce => {
+                if !st.rejected {
+                    st.len_at_reject = Some(st.data.len());
+                }
                 st.rejected = true;
                 Err(io::Error::other("injected: flush failed (transient)"))
             }
